@@ -1,9 +1,9 @@
 /-
   WS.Props.C02 — received frames decode exactly as RFC 6455 prescribes.
 -/
-import WS.Lemmas.Frame
+import WS.Lemmas.Stream
 namespace WS.Props.C02
-open WS WS.Spec WS.Model WS.Lemmas.Frame
+open WS WS.Spec WS.Model WS.Lemmas.Frame WS.Lemmas.RecvStrict WS.Lemmas.Parser WS.Lemmas.Stream
 
 /-- **Spec round trip** — the RFC decoder inverts the RFC encoder for every header (FIN, RSV1-3,
     opcode < 16), every permitted length form (minimal or not), masked with any 4-byte key or
@@ -17,5 +17,32 @@ theorem spec_decode_encode (fin rsv1 rsv2 rsv3 op : Nat) (key : Option Bytes) (f
       .frame { fin := fin, rsv1 := rsv1, rsv2 := rsv2, rsv3 := rsv3, opcode := op,
                masked := key.isSome, key := key.getD [], lenForm := form, payload := p } rest :=
   decode_encode fin rsv1 rsv2 rsv3 op key form p rest hf h1 h2 h3 hop hk hform
+
+/-- **C02_decode** — the staged parser (`frame_buffer.recv_frame`, mirrored stage by stage) equals the
+    RFC decoder: for every state of a live connection with a cleared parser and **every chunking** of the
+    pending bytes, if those bytes start with a complete frame `w` (any header byte, any of the three length
+    forms, masked or not, any payload), `recv_frame` returns exactly `w`'s FIN/RSV/opcode/unmasked payload
+    (or the protocol error `validate` raises for it) and what remains pending is exactly the bytes after the
+    frame — so the next frame is parsed from its true start. -/
+theorem C02_decode (c : Conn) (hl : Live c) (hch : Chunks c.sock.inp) (hclr : Cleared c)
+    (w : WireFrame) (rest : Bytes) (hdec : decode (pending c) = .frame w rest) :
+    ∃ c', c.recvFrame = (outcome c.skipUtf8 w, c') ∧ pending c' = rest ∧ Cleared c' ∧ Good c c' :=
+  recvFrame_decodes c hl hch hclr w rest hdec
+
+/-- **C02_stream** — for every sequence of back-to-back frames (of any number and any encodings) followed
+    by arbitrary bytes, successive `recv_frame` calls yield the decoder's frames in order and consume
+    exactly those frames (the tail is what remains pending). Induction on the sequence — no bound. -/
+theorem C02_stream (ws : List WireFrame) (c : Conn) (tail : Bytes) (hl : Live c) (hch : Chunks c.sock.inp)
+    (hclr : Cleared c) (hd : DecodesTo (pending c) ws tail) :
+    ∃ c', recvFrames ws.length c = (ws.map (outcome c.skipUtf8), c') ∧ pending c' = tail ∧ Cleared c' ∧ Good c c' :=
+  recvFrames_decodes ws c tail hl hch hclr hd
+
+/-- non-vacuity: a concrete two-chunk transport holding one masked text frame "Hi" and one ping. -/
+example : ∃ c : Conn, Live c ∧ Chunks c.sock.inp ∧ Cleared c ∧
+    decode (pending c) = .frame { fin := 1, rsv1 := 0, rsv2 := 0, rsv3 := 0, opcode := 1, masked := true,
+                                  key := [1, 2, 3, 4], lenForm := 7, payload := [0x48, 0x69] } [0x89, 0x00] :=
+  ⟨{ sock := { inp := [.chunk [0x81, 0x82, 1], .chunk [2, 3, 4, 0x49, 0x6b, 0x89, 0x00]] } },
+   ⟨rfl, rfl⟩, by intro e he; simp at he; rcases he with rfl | rfl <;> exact ⟨_, rfl, by simp⟩, ⟨rfl, rfl, rfl⟩,
+   by decide⟩
 
 end WS.Props.C02
